@@ -40,14 +40,14 @@ Fixpoint last_index_of (needle t : list N) : option nat :=
 Record facts := mkFacts { f_prefix : list N; f_suffix : list N; f_min : N; f_max : N }.
 Record rx := mkRx { r_prog : prog; r_ncap : nat; r_facts : facts }.
 
-Definition plain (r : rx) (buffer : list N) : option caps := search (r_prog r) (r_ncap r) buffer.
+Definition plain (F : nat) (r : rx) (buffer : list N) : option caps := search F (r_prog r) (r_ncap r) buffer.
 
 Definition context_sensitive (r : rx) : bool := negb (assertion_free (r_prog r)).
 
 Definition too_short (buffer : list N) (mn : N) : bool := N.ltb (N.of_nat (length buffer)) mn.
 
 (* the fixed-length window loop; [fuel] >= length buffer + 1 *)
-Fixpoint window (r : rx) (fuel : nat) (total : nat) (buffer : list N) (off : nat) : option caps * nat :=
+Fixpoint window (F : nat) (r : rx) (fuel : nat) (total : nat) (buffer : list N) (off : nat) : option caps * nat :=
   match fuel with
   | O => (None, total)
   | S f =>
@@ -59,19 +59,19 @@ Fixpoint window (r : rx) (fuel : nat) (total : nat) (buffer : list N) (off : nat
     | Some pos =>
       let off := off + pos in
       let buffer := skipn pos buffer in
-      match plain r (firstn n buffer) with
+      match plain F r (firstn n buffer) with
       | Some res => (Some res, off)
-      | None => window r f total (tl buffer) (S off)
+      | None => window F r f total (tl buffer) (S off)
       end
     end
   end.
 
 (* progressVariant.find: result (indices relative to the returned offset) and the new stream offset of [dir] *)
-Definition find (guard : bool) (r : rx) (data : list N) (off : nat) : option caps * nat :=
+Definition find (F : nat) (guard : bool) (r : rx) (data : list N) (off : nat) : option caps * nat :=
   let fx := r_facts r in
   let total := length data in
   let buffer := skipn off data in
-  if guard && context_sensitive r then (plain r buffer, off)
+  if guard && context_sensitive r then (plain F r buffer, off)
   else if too_short buffer (f_min fx) then (None, off)
   else
     (* prefix *)
@@ -102,8 +102,8 @@ Definition find (guard : bool) (r : rx) (data : list N) (off : nat) : option cap
           if match f_suffix fx with [] => false | _ => too_short buffer (f_min fx) end then (None, off)
           else if N.eqb (f_min fx) (f_max fx) && match f_prefix fx with [] => true | _ => false end
                   && match f_suffix fx with [] => false | _ => true end
-          then window r (S (length buffer)) total buffer off
-          else match plain r buffer with
+          then window F r (S (length buffer)) total buffer off
+          else match plain F r buffer with
                | Some res => (Some res, off)
                | None => (None, total)
                end
@@ -145,7 +145,7 @@ Definition set_off (d : bool) (v : nat) (p : progress) : progress :=
 Definition match_end (res : caps) : nat := match nth_error res 1 with Some (Some e) => e | _ => 0 end.
 
 (* one visit of the loop body for occurrence (condition c, element index k) *)
-Definition attempt (guard : bool) (tbl : list rx) (s : source) (c : cond) (k : nat) (p : progress) : progress :=
+Definition attempt (F : nat) (guard : bool) (tbl : list rx) (s : source) (c : cond) (k : nat) (p : progress) : progress :=
   if negb (Nat.eqb k (p_n p)) then p
   else match nth_error (c_elems c) k with
        | None => p
@@ -154,7 +154,7 @@ Definition attempt (guard : bool) (tbl : list rx) (s : source) (c : cond) (k : n
          | None => mkProgress (p_offc p) (p_offs p) (p_n p) true
          | Some r =>
            let d := e_dir e in
-           let (res, off) := find guard r (dir_data d s) (p_off d p) in
+           let (res, off) := find F guard r (dir_data d s) (p_off d p) in
            let p := set_off d off p in
            match res with
            | None => p
@@ -209,30 +209,30 @@ Fixpoint update {A} (n : nat) (f : A -> A) (l : list A) : list A :=
 Definition advanced_incomplete (c : cond) (p p' : progress) : bool :=
   negb (Nat.eqb (p_n p') (p_n p)) && negb (Nat.eqb (p_n p') (length (c_elems c))).
 
-Definition visit (guard : bool) (tbl : list rx) (s : source) (cs : list cond) (st : list progress * bool) (o : occ) : list progress * bool :=
+Definition visit (F : nat) (guard : bool) (tbl : list rx) (s : source) (cs : list cond) (st : list progress * bool) (o : occ) : list progress * bool :=
   match nth_error cs (fst o), nth_error (fst st) (fst o) with
   | Some c, Some p =>
-      let p' := attempt guard tbl s c (snd o) p in
+      let p' := attempt F guard tbl s c (snd o) p in
       (update (fst o) (fun _ => p') (fst st), snd st || advanced_incomplete c p p')
   | _, _ => st
   end.
 
-Definition pass (guard : bool) (tbl : list rx) (s : source) (cs : list cond) (order : list occ) (ps : list progress) : list progress * bool :=
-  fold_left (visit guard tbl s cs) order (ps, false).
+Definition pass (F : nat) (guard : bool) (tbl : list rx) (s : source) (cs : list cond) (order : list occ) (ps : list progress) : list progress * bool :=
+  fold_left (visit F guard tbl s cs) order (ps, false).
 
 (* `for recheckRegexes := true; recheckRegexes; { recheckRegexes = false; ... }` *)
-Fixpoint group_loop (guard : bool) (tbl : list rx) (s : source) (cs : list cond) (order : list occ) (fuel : nat) (ps : list progress)
+Fixpoint group_loop (F : nat) (guard : bool) (tbl : list rx) (s : source) (cs : list cond) (order : list occ) (fuel : nat) (ps : list progress)
   : list progress :=
   match fuel with
   | O => ps
-  | S f => let (ps', again) := pass guard tbl s cs order ps in
-           if again then group_loop guard tbl s cs order f ps' else ps'
+  | S f => let (ps', again) := pass F guard tbl s cs order ps in
+           if again then group_loop F guard tbl s cs order f ps' else ps'
   end.
 
 Definition loop_fuel (cs : list cond) : nat := S (fold_right (fun c a => length (c_elems c) + a) 0 cs).
 
-Definition source_eval (guard : bool) (tbl : list rx) (cs : list cond) (s : source) : list progress :=
-  group_loop guard tbl s cs (visit_order cs) (loop_fuel cs) (map (fun _ => progress0) cs).
+Definition source_eval (F : nat) (guard : bool) (tbl : list rx) (cs : list cond) (s : source) : list progress :=
+  group_loop F guard tbl s cs (visit_order cs) (loop_fuel cs) (map (fun _ => progress0) cs).
 
 (* success of one condition on one source: `nUnsuccessful >= 2 || (nUnsuccessful != 0) != d.Inverted` fails *)
 Definition cond_success (c : cond) (p : progress) : bool :=
@@ -256,12 +256,12 @@ Definition sources_of (cn : conv_name) (st : stream) : list source :=
 Definition count_true (l : list bool) : nat := length (filter (fun b => b) l).
 
 (* the accounting at the end of the filter (no variants): per condition successes / fails over the evaluated sources *)
-Definition conj_selected (guard : bool) (tbl : list rx) (cn : conv_name) (cs : list cond) (st : stream) : bool :=
+Definition conj_selected (F : nat) (guard : bool) (tbl : list rx) (cn : conv_name) (cs : list cond) (st : stream) : bool :=
   let srcs := sources_of cn st in
   match srcs with
   | [] => forallb c_inv cs
   | _ =>
-    let results := map (source_eval guard tbl cs) srcs in                (* per source: progress per condition *)
+    let results := map (source_eval F guard tbl cs) srcs in                (* per source: progress per condition *)
     let per_cond := map (fun ci => map (fun ps => match nth_error cs ci, nth_error ps ci with
                                                    | Some c, Some p => cond_success c p | _, _ => false end) results)
                         (seq 0 (length cs)) in
@@ -274,11 +274,11 @@ Definition conj_selected (guard : bool) (tbl : list rx) (cn : conv_name) (cs : l
             (List.combine cs per_cond)
   end.
 
-Definition any_bad (guard : bool) (tbl : list rx) (cn : conv_name) (cs : list cond) (st : stream) : bool :=
-  existsb (fun s => existsb p_bad (source_eval guard tbl cs s)) (sources_of cn st).
+Definition any_bad (F : nat) (guard : bool) (tbl : list rx) (cn : conv_name) (cs : list cond) (st : stream) : bool :=
+  existsb (fun s => existsb p_bad (source_eval F guard tbl cs s)) (sources_of cn st).
 
-Definition stream_selected (guard : bool) (tbl : list rx) (cn : conv_name) (ors : list (list cond)) (st : stream) : bool :=
-  existsb (fun cs => conj_selected guard tbl cn cs st) ors.
+Definition stream_selected (F : nat) (guard : bool) (tbl : list rx) (cn : conv_name) (ors : list (list cond)) (st : stream) : bool :=
+  existsb (fun cs => conj_selected F guard tbl cn cs st) ors.
 
 (* ------------------------------------------------------------------ the specification: plain scan in conversation order *)
 (* start of the first chunk of direction (negb d) that begins after the chunk of direction d holding byte off-1 *)
@@ -292,7 +292,7 @@ Fixpoint boundary_spec (s : source) (d : bool) (off : nat) (cd co : nat) : optio
   end.
 
 (* number of leading elements matched, each by a plain scan of the data that follows the previous match *)
-Fixpoint seq_spec (tbl : list rx) (s : source) (es : list elem) (offc offs : nat) : nat :=
+Fixpoint seq_spec (F : nat) (tbl : list rx) (s : source) (es : list elem) (offc offs : nat) : nat :=
   match es with
   | [] => 0
   | e :: r =>
@@ -301,26 +301,26 @@ Fixpoint seq_spec (tbl : list rx) (s : source) (es : list elem) (offc offs : nat
     | Some x =>
       let d := e_dir e in
       let off := if d then offs else offc in
-      match plain x (skipn off (dir_data d s)) with
+      match plain F x (skipn off (dir_data d s)) with
       | None => 0
       | Some m =>
         let en := match_end m in
-        if Nat.eqb en 0 then S (seq_spec tbl s r offc offs)
+        if Nat.eqb en 0 then S (seq_spec F tbl s r offc offs)
         else let off' := off + en in
              let other := match boundary_spec s d off' 0 0 with Some o => o | None => 0 end in
-             S (if d then seq_spec tbl s r other off' else seq_spec tbl s r off' other)
+             S (if d then seq_spec F tbl s r other off' else seq_spec F tbl s r off' other)
       end
     end
   end.
 
-Definition cond_holds_spec (tbl : list rx) (c : cond) (s : source) : bool :=
-  let n := seq_spec tbl s (c_elems c) 0 0 in
+Definition cond_holds_spec (F : nat) (tbl : list rx) (c : cond) (s : source) : bool :=
+  let n := seq_spec F tbl s (c_elems c) 0 0 in
   if c_inv c then Nat.eqb (S n) (length (c_elems c)) else Nat.eqb n (length (c_elems c)).
 
-Definition conj_spec (tbl : list rx) (cn : conv_name) (cs : list cond) (st : stream) : bool :=
+Definition conj_spec (F : nat) (tbl : list rx) (cn : conv_name) (cs : list cond) (st : stream) : bool :=
   let srcs := sources_of cn st in
-  forallb (fun c => if c_inv c then forallb (cond_holds_spec tbl c) srcs
-                    else existsb (cond_holds_spec tbl c) srcs) cs.
+  forallb (fun c => if c_inv c then forallb (cond_holds_spec F tbl c) srcs
+                    else existsb (cond_holds_spec F tbl c) srcs) cs.
 
-Definition stream_spec (tbl : list rx) (cn : conv_name) (ors : list (list cond)) (st : stream) : bool :=
-  existsb (fun cs => conj_spec tbl cn cs st) ors.
+Definition stream_spec (F : nat) (tbl : list rx) (cn : conv_name) (ors : list (list cond)) (st : stream) : bool :=
+  existsb (fun cs => conj_spec F tbl cn cs st) ors.
